@@ -381,6 +381,9 @@ def run_machine(desc):
             self.runs = 0
             self.history = []
             self.it_started_aborted = False
+            self.it_killed = False
+            self.it_started = False
+            self.after_kill = 0
 
         def teardown(self):
             self.ctx.__exit__(None, None, None)
@@ -452,6 +455,9 @@ def run_machine(desc):
             self.history.append('reset')
             self.w.reset()
             self.aborted = False
+            # a live iterator that has not yet looked at the flag simply carries on (had it seen the flag, it would have ended
+            # inside that next() call and self.it would be None)
+            self.it_killed = False
 
         @rule()
         def drop(self):
